@@ -164,16 +164,30 @@ def run_case(case, ctx):
             from comb_spec_searcher import CombinatorialSpecification
             from comb_spec_searcher.exception import InvalidOperationError
 
+            # A crash while building the specification is judged elsewhere (it is
+            # not about the two databases); here only a DIFFERENCE between them is.
+            built = {}
             for name, db in (("RuleDB", tee.a), ("RuleDBForgetStrategy", tee.b)):
+                import random as _random
+
+                _random.seed(case.get("rng", 0))  # the same proof-tree choices on both sides
                 try:
                     rules = list(db.get_specification_rules(minimization_time_limit=0.1))
-                    spec = CombinatorialSpecification(out.start, rules)
-                except InvalidOperationError:
-                    continue
+                    built[name] = ("spec", CombinatorialSpecification(out.start, rules))
                 except Exception as e:
-                    ctx.fail("specification", f"{name}: building the specification raised {describe_exc(e)}", f"specification/{name}/{type(e).__name__}")
-                    continue
-                speccheck.check_structure(ctx, spec, out.start, [out.pack], part=f"spec-{name}")
+                    built[name] = ("raised", type(e).__name__, describe_exc(e))
+            # The two databases may hand back different (equally valid) strategies
+            # for one key - e.g. two Expand variants - so one side can run into a
+            # limitation of the library (a two-way edge whose reverse cannot be built
+            # as an equivalence) while the other does not.  The statement does not
+            # speak about that; crashes are counted, built specifications judged.
+            for name, val in built.items():
+                if val[0] == "raised":
+                    ctx.label("spec-building-raised:" + name)
+                    ctx.count("search_crashes:" + val[2][:100])
+            for name, val in built.items():
+                if val[0] == "spec":
+                    speccheck.check_structure(ctx, val[1], out.start, [out.pack], part=f"spec-{name}")
         ctx.nontrivial = tee.n >= 6 and ver_nonatom
         if ver_nonatom:
             ctx.label("non-atom-verified")
